@@ -2591,9 +2591,13 @@ class SliceDataset(Dataset):
             # itemgetter makes the same as
             # "tuple([keys[i] for i in self.slice])"
             # but is 10 times faster
-            self._keys = operator.itemgetter(*self.slice)(keys)
-            if len(self.slice) == 1:
-                self._keys = (self._keys,)
+            if len(self.slice) == 0:
+                # itemgetter needs at least one argument
+                self._keys = ()
+            else:
+                self._keys = operator.itemgetter(*self.slice)(keys)
+                if len(self.slice) == 1:
+                    self._keys = (self._keys,)
         return self._keys
 
     def __len__(self):
